@@ -176,11 +176,25 @@ impl TapeRng {
             }
             off += d.bytes.len();
         }
+        // every other offset, nearest to a draw start first, capped: this is a courtesy to
+        // unusual implementations, not an exhaustive search
         if all.len() >= len {
-            for off in 0..=all.len() - len {
-                if seen.insert(off) {
-                    v.push((off, all[off..off + len].to_vec()));
-                }
+            let starts: Vec<usize> = {
+                let mut o = 0;
+                self.draws
+                    .iter()
+                    .map(|d| {
+                        let s = o;
+                        o += d.bytes.len();
+                        s
+                    })
+                    .collect()
+            };
+            let dist = |o: &usize| starts.iter().filter(|s| **s <= *o).map(|s| o - s).min().unwrap_or(*o);
+            let mut extra: Vec<usize> = (0..=all.len() - len).filter(|o| !seen.contains(o) && dist(o) <= 32).collect();
+            extra.sort_by_key(dist);
+            for off in extra.into_iter().take(65536) {
+                v.push((off, all[off..off + len].to_vec()));
             }
         }
         v
